@@ -115,8 +115,9 @@ type walker struct {
 	funcs  map[string]*funcInfo
 	edges  map[[2]string]string // (A,B) → first site
 	sites  map[string]int
-	held   []string
-	change bool
+	held     []string
+	deferred []string // classes released by a deferred Unlock/RUnlock
+	change   bool
 }
 
 func (w *walker) acquire(class string, pos string) {
@@ -149,6 +150,7 @@ func (w *walker) call(info *types.Info, c *ast.CallExpr, deferred bool) {
 						w.held = append(w.held, class)
 					default:
 						if deferred {
+							w.deferred = append(w.deferred, class)
 							return // held until the function returns
 						}
 						for i := len(w.held) - 1; i >= 0; i-- {
@@ -344,6 +346,7 @@ func lockFacts(pkgs []*packages.Package, b *strings.Builder) {
 	}
 	sort.Strings(order)
 	edges := map[[2]string]string{}
+	unbalanced := map[string]bool{}
 	for iter := 0; iter < 20; iter++ {
 		change := false
 		for _, k := range order {
@@ -351,11 +354,30 @@ func lockFacts(pkgs []*packages.Package, b *strings.Builder) {
 			w := &walker{fi: fi, funcs: funcs, edges: edges}
 			w.stmts(fi.pkg.TypesInfo, fi.decl.Body.List)
 			change = change || w.change
+			// balance: what is still held at the end must be released by a deferred unlock
+			left := append([]string{}, w.held...)
+			for _, d := range w.deferred {
+				for i, h := range left {
+					if h == d {
+						left = append(left[:i], left[i+1:]...)
+						break
+					}
+				}
+			}
+			if len(left) > 0 {
+				unbalanced[short(k)+":"+strings.Join(left, "+")] = true
+			}
 		}
 		if !change {
 			break
 		}
 	}
+	var ub []string
+	for k := range unbalanced {
+		ub = append(ub, fmt.Sprintf("%q", k))
+	}
+	sort.Strings(ub)
+	fmt.Fprintf(b, "/-- F4: functions that may return still holding a lock (must be empty) -/\ndef unbalanced : List String := [%s]\n\n", strings.Join(ub, ", "))
 	classes := map[string]bool{}
 	for _, k := range order {
 		for c := range funcs[k].acquires {
